@@ -1,11 +1,27 @@
-"""C14 - garbage is reclaimed: function-local env-guard balance.
+"""C14 - garbage is reclaimed: the env-guard ledger of the interpreter.
 
-Decided on the real MIR with every callee abstracted by assume-guarantee (auto-havoc: arbitrary result, arbitrary contents
-behind &mut arguments, no env-guard effect of its own) and Interpreter::push_env_guard / pop_env_guard recorded as events:
-  * resume_bytecode_generator, call_bytecode_function_with_new_target: pushes == pops on EVERY path to any return (Ok or Err);
-  * BytecodeVM::push_trampoline_frame_and_call_bytecode(_construct): a guard is pushed iff a trampoline frame is pushed;
-  * BytecodeVM::restore_from_trampoline_frame: exactly one pop;
-  * BytecodeVM::handle_error_with_trampoline_unwind: one pop per trampoline frame popped.
+Interpreter::env_guards is a stack of guards that root the scope chain.  Four primitives touch it: push_env_guard / pop_env_guard
+(one entry per bytecode call frame) and push_scope / pop_scope (one entry per block scope).  Every entry that is pushed and never
+popped keeps an environment - and everything bound in it - alive for the lifetime of the interpreter: the heap then grows with
+every repetition of a program.
+
+Decided on the real MIR, for EVERY function that calls one of the four primitives directly (the set is recomputed from the MIR
+dump on every run, so a new user cannot hide), with all other callees abstracted by assume-guarantee (arbitrary result, arbitrary
+contents behind &mut arguments except the two bookkeeping vectors, no env-guard effect of their own):
+
+  the ledger invariant      G  ==  B + T + |vm.saved_env_stack|          (an inductive invariant: one step from an ARBITRARY state)
+     G = number of entries of env_guards, B = entries that belong to the callers of this VM,
+     T = sum over the frames of vm.trampoline_stack of (1 + |frame.saved_env_stack|)
+
+  * BytecodeVM::restore_from_trampoline_frame, handle_error_with_trampoline_unwind (with find_exception_handler and
+    unwind_frame_scopes executed for real), push_trampoline_frame_and_call_bytecode(_construct), find_exception_handler,
+    unwind_frame_scopes, and the PushScope / PopScope arms of execute_op preserve the invariant on every path to a return,
+    for symbolic vector lengths (solver query per path: pc => delta(G) == delta(T) + delta(|saved_env_stack|));
+  * when handle_error_with_trampoline_unwind gives up (returns Err) and when step() reports Terminal(Complete), nothing of this
+    VM is left: the trampoline stack and saved_env_stack are empty (so G == B: the guards of the finished run are all popped);
+  * every other direct user (call_bytecode_function_with_new_target, eval_code_in_scope_with_this, any new one) is balanced:
+    pushes == pops on every path to any return, Ok or Err;
+  * execute_op contains no call of a primitive outside the two arms above.
 Concrete companion: live-object counts after collect() over repeated runs of self-contained programs (witness / replay route).
 """
 import json
@@ -16,9 +32,11 @@ import z3
 from emir import driver
 from emir.values import *
 from emir.symex import State
-from . import common, ledger
+from emir.models import two_way, deref
+from . import common
 
 KF_ABANDONED = 'C14/env_guards/generator-abandoned-inside-block-scope'
+KF_SCOPE_EXIT = 'C14/env_guards/frame-left-with-open-block-scopes'
 
 PROGRAMS = [
     ('function* g(){ yield 1; yield 2 } const it = g(); it.next(); it.next(); it.next(); 1', 'C14/resume_bytecode_generator/unpaired-env-guard'),
@@ -30,28 +48,278 @@ PROGRAMS = [
     ('const p = new Promise(r => r(1)); p.then(x => x); 1', 'C14/promise/leak'),
     ('async function f(){ return 1 } f(); 1', 'C14/async/leak'),
     ('function* g(){ { let a = 1; yield a; } } const it = g(); it.next(); 1', KF_ABANDONED),
+    # frames left from inside block scopes (return / uncaught error / error caught two frames up)
+    ('function f(){ for (let i = 0; i < 3; i++) { if (i == 1) return i } return -1 } f(); 1', KF_SCOPE_EXIT),
+    ('function f(){ try { throw 1 } catch (e) { return 2 } } f(); 1', KF_SCOPE_EXIT),
+    ('function f(){ { let a = 1; return a } } [1].map(f); 1', KF_SCOPE_EXIT),
+    ('try { [1,2,3].map(x => { if (x > 1) { throw x } return x }) } catch (e) {} 1', KF_SCOPE_EXIT),
+    ('function inner(){ { let a = 1; throw new Error("x") } } function mid(){ return inner() } try { mid() } catch (e) {} 1', 'C14/call-error/leak'),
+    ('function f(){ while (true) { let q = 1; break } return 1 } f(); 1', KF_SCOPE_EXIT),
+    ('class A { m(){ { let a = 1; return a } } } new A().m(); 1', KF_SCOPE_EXIT),
 ]
 
+PRIMS = {'Interpreter::push_env_guard': 'push', 'Interpreter::pop_env_guard': 'pop', 'Interpreter::push_scope': 'spush', 'Interpreter::pop_scope': 'spop'}
+PRIM_RX = re.compile(r'\bInterpreter::(push_env_guard|pop_env_guard|push_scope|pop_scope)\(')
 
-def balance_kernel(rep, cross, ty, meth, expect, label):
+
+def direct_users(ex):
+    """{MIR function name: number of call sites of the four primitives}, from the current dump"""
+    out = {}
+    m = ex.mir
+    for name, (s, e) in m.fn_index.items():
+        n = sum(1 for l in m.lines[s:e] if PRIM_RX.search(l) and '=' in l)
+        if n:
+            out[name] = n
+    return out
+
+
+def short(name):
+    return name.split('>::')[-1].split('::')[-1]
+
+
+class Ledger:
+    """one kernel run: executor with the primitives as events and the bookkeeping vectors tracked"""
+
+    def __init__(self, rep, inline, unwind=3, summarise=()):
+        ex = common.executor(unwind=unwind)
+        self.ex = ex
+        self.rep = rep
+        ex.auto_havoc = True
+        vm_f = ex.src.structs['BytecodeVM']
+        vm_t = ex.src.struct_types['BytecodeVM']
+        fr_f = ex.src.structs['TrampolineFrame']
+        fr_t = ex.src.struct_types['TrampolineFrame']
+        for need, fl in (('saved_env_stack', vm_f), ('trampoline_stack', vm_f), ('saved_env_stack', fr_f)):
+            if need not in fl:
+                raise driver.Inconclusive('field %s not found (renamed?)' % need)
+        self.sidx, self.tidx, self.fsidx = vm_f.index('saved_env_stack'), vm_f.index('trampoline_stack'), fr_f.index('saved_env_stack')
+        self.s_ty, self.t_ty, self.fs_ty = vm_t[self.sidx], vm_t[self.tidx], fr_t[self.fsidx]
+        # callees that are not users of the primitives are assumed not to touch the two bookkeeping vectors
+        ex.auto_frames = {'BytecodeVM': {self.sidx, self.tidx}}
+        ex.execute_real = [re.compile('^BytecodeVM::(%s)$' % '|'.join(inline))] if inline else []
+        for prim, kind in PRIMS.items():
+            ex.overrides.append((re.compile('^%s$' % re.escape(prim)), self._ev(kind)))
+        ex.overrides.append((re.compile(r'^Vec::pop$'), self._tramp_pop))
+        if 'find_exception_handler' in summarise:
+            ex.overrides.append((re.compile(r'^BytecodeVM::find_exception_handler$'), self._feh_summary))
+
+    @staticmethod
+    def _ev(kind):
+        def h(e, s, c):
+            s.event(kind)
+            if kind == 'spush':
+                return e.ret(s, c, e.fresh(s, c.dest_ty or 'Gc<JsObject>', 'oldenv'))
+            return e.ret(s, c, UNIT)
+        return h
+
+    def is_tramp(self, tok):
+        while isinstance(tok, tuple):
+            tok = tok[0]
+        return str(tok).endswith('.%d:vec' % self.tidx)
+
+    def _tramp_pop(self, ex, st, call):
+        """Vec::pop on the trampoline stack: the popped frame carries an explicit symbolic saved_env_stack length"""
+        r = call.args[0]
+        v = deref(ex, st, r)
+        if not (isinstance(v, AbsVec) and self.is_tramp(v.tok)):
+            return None
+
+        def some(s):
+            vv = deref(ex, s, r)
+            k = sum(1 for x in s.events if x[0] == 'tpop')
+            n = z3.BitVec('frame%d_scopes' % k, 64)
+            s.assume(z3.ULE(n, 1 << 40))
+            s.event('tpop', n)
+            ex.store(s, r.addr, r.path, AbsVec(vv.n - 1, (vv.tok, 'pop', len(s.events)), vv.elem_ty))
+            fr = Agg('struct', 'TrampolineFrame', {self.fsidx: AbsVec(n, 'frame%d.scopes' % k, None)}, lazy=True, nm='$frame%d' % k)
+            return ex.ret(s, call, ex.some(fr))
+        return two_way(ex, st, v.n != 0, some, lambda s: ex.ret(s, call, ex.none()))
+
+    def _feh_summary(self, ex, st, call):
+        """contract of find_exception_handler (its own kernel shows it): it leaves k of the open block scopes, 0 <= k <= |saved_env_stack|,
+        with one pop_scope each; everything else it does is arbitrary (falls through to the generic abstraction)"""
+        r = call.args[0]
+        ses = ex.load(st, r.addr, r.path + (('f', self.sidx, self.s_ty),))
+        n = ex.vec_len(ses).e
+        j = sum(1 for x in st.events if x[0] == 'spopn')
+        k = z3.BitVec('handler%d_scopes_left' % j, 64)
+        st.assume(z3.ULE(k, n))
+        st.event('spopn', k)
+        ex.store(st, r.addr, r.path + (('f', self.sidx, self.s_ty),), AbsVec(n - k, ('scopes-after-handler', j), None))
+        ex.havoc_used.add('BytecodeVM::find_exception_handler (contract: pops k <= |saved_env_stack| scopes, one pop_scope each; checked by its own kernel)')
+        return None
+
+    def fresh_vm(self, st):
+        n0 = z3.BitVec('scopes0', 64)
+        t0 = z3.BitVec('frames0', 64)
+        st.assume(z3.ULE(n0, 1 << 40))
+        st.assume(z3.ULE(t0, 1 << 40))
+        vm = Agg('struct', 'BytecodeVM', {self.sidx: AbsVec(n0, 'scopes0', None), self.tidx: AbsVec(t0, '$vm.%d:vec' % self.tidx, 'TrampolineFrame')}, lazy=True, nm='$vm')
+        return st.alloc(vm), n0, t0
+
+    def account(self, e, a_vm, n0, extra_popped=()):
+        """-> (G delta as int, z3 expr of delta(T) + delta(|saved_env_stack|), final scopes length, final trampoline length)"""
+        ex = self.ex
+        g = z3.BitVecVal(0, 64)
+        dT = z3.BitVecVal(0, 64)
+        for x in e.st.events:
+            if x[0] in ('push', 'spush'):
+                g = g + 1
+            elif x[0] in ('pop', 'spop'):
+                g = g - 1
+            elif x[0] == 'spopn':
+                g = g - x[1]
+            elif x[0] == 'tpop':
+                dT = dT - (1 + x[1])
+            elif x[0] == 'abs_push' and self.is_tramp(x[1]):
+                fr = x[2]
+                sv = fr.fields.get(self.fsidx) if isinstance(fr, Agg) else None
+                if sv is None:
+                    raise driver.Inconclusive('trampoline frame pushed without a materialised saved_env_stack')
+                dT = dT + 1 + ex.vec_len(sv).e
+        for n in extra_popped:
+            dT = dT - (1 + n)
+        fin = ex.load(e.st, a_vm, (('f', self.sidx, self.s_ty),))
+        tfin = ex.load(e.st, a_vm, (('f', self.tidx, self.t_ty),))
+        nf = ex.vec_len(fin).e
+        return g, dT + nf - n0, nf, ex.vec_len(tfin).e
+
+
+def find_result(v, ty, depth=0, st=None):
+    """first EnumV of type ty inside value v (through boxes / payloads / references)"""
+    if depth > 8:
+        return None
+    if isinstance(v, Ref) and st is not None and v.addr in st.store:
+        return find_result(st.store[v.addr], ty, depth + 1, st)
+    if isinstance(v, EnumV):
+        if v.ty.split('<')[0].split('::')[-1] == ty:
+            return v
+        for pl in v.payload.values():
+            for x in pl.values():
+                r = find_result(x, ty, depth + 1, st)
+                if r is not None:
+                    return r
+    if isinstance(v, Agg):
+        for x in v.fields.values():
+            r = find_result(x, ty, depth + 1, st)
+            if r is not None:
+                return r
+    return None
+
+
+def report_bad(rep, key, meth, msg, detail):
+    outs = driver.replay([{'cmd': 'gc_repeat', 'src': s, 'times': 6} for s, _ in PROGRAMS])
+    rep.validated += len(outs)
+    growing = [(s, o['live']) for (s, k), o in zip(PROGRAMS, outs) if o['live'][-1] > o['live'][1] and k != KF_ABANDONED]
+    detail = dict(detail)
+    detail['programs_with_growing_heap'] = growing
+    p = rep.write_replay('ledger-%s' % meth, detail)
+    rep.violation(key, msg + ('; heap grows on repetition: %r' % (growing[:1],) if growing else ''), p)
+
+
+def invariant_kernel(rep, cross, meth, inline=(), arm=None, unwind=3, terminal=None, summarise=()):
+    """the ledger invariant is preserved by BytecodeVM::<meth> (arm: run execute_op on that Op variant only)"""
+    L = Ledger(rep, inline, unwind, summarise)
+    ex = L.ex
+    fn = common.fn_name(ex, 'BytecodeVM', meth)
+    f = ex.mir.get(fn)
+    st = State()
+    a_vm, n0, t0 = L.fresh_vm(st)
+    args = [Ref(a_vm)]
+    extra = []
+    for i, (a, t) in enumerate(f.args[1:], 1):
+        ts = t.split('::')[-1]
+        if ts == 'TrampolineFrame':
+            n = z3.BitVec('frameA_scopes', 64)
+            st.assume(z3.ULE(n, 1 << 40))
+            extra.append(n)
+            args.append(Agg('struct', 'TrampolineFrame', {L.fsidx: AbsVec(n, 'frameA.scopes', None)}, lazy=True, nm='$frameA'))
+        elif ts == 'Op' and arm is not None:
+            vi = ex.variant_index('Op', arm)
+            args.append(EnumV('Op', vi, {vi: {}}))
+        else:
+            args.append(ex.fresh(st, t, '$a%d' % i))
+    if meth.startswith('push_trampoline_frame'):
+        # long argument-binding code with no loop over the bookkeeping vectors: merge states that agree on location, loop counters,
+        # ledger events and decided Result/ControlFlow cases
+        def key(s_):
+            ev = tuple(x[0] for x in s_.events if x[0] in ('push', 'pop', 'spush', 'spop', 'tpop', 'abs_push', 'abs_pop'))
+            loc = tuple((f_.fn.name, f_.block, f_.ret_block, id(f_.on_return), tuple(sorted(f_.visits.items()))) for f_ in s_.frames)
+            return (loc, ev, ex.control_digest(s_))
+        ex.subsume_key = key
+    ex.call_function(st, fn, args)
+    ends = ex.run(st, max_paths=40000)
+    label = '%s%s' % (meth, '[Op::%s]' % arm if arm else '')
+    n_ok = 0
+    skipped = {}
+    sites = 0
+    for k, e in enumerate(ends):
+        if e.status in ('bound', 'panic'):
+            skipped[e.detail[:70]] = skipped.get(e.detail[:70], 0) + 1
+            continue
+        if e.status != 'return':
+            rep.inconc('%s: %s %s' % (label, e.status, e.detail[:160]))
+            continue
+        n_ok += 1
+        g, rhs, nf, tf = L.account(e, a_vm, n0, extra)
+        sites = max(sites, sum(1 for x in e.st.events if x[0] in ('push', 'pop', 'spush', 'spop')))
+        goal = g == rhs
+        t = time.time()
+        r, m = ex.check_sat_pc(e.st.pc, [z3.Not(goal)])
+        what = '%s path %d: delta(env_guards) == delta(T) + delta(|saved_env_stack|)' % (label, k)
+        rep.obligation(what, r, 'vector lengths symbolic (<= 2^40), loops unrolled %d times' % unwind, time.time() - t)
+        if r == 'unsat':
+            cross.append((what, list(e.st.pc) + [z3.Not(goal)], 'unsat'))
+        elif not rep.seen('C14/%s/ledger' % meth):
+            small = [z3.ULE(n0, 2)] + [z3.ULE(x[1], 2) for x in e.st.events if x[0] in ('tpop', 'spopn')] + [z3.ULE(n_, 2) for n_ in extra]
+            r_s, m_s = ex.check_sat_pc(e.st.pc, [z3.Not(goal)] + small)      # prefer a readable counterexample
+            if r_s == 'sat':
+                m = m_s
+            mv = lambda x: m.eval(x, model_completion=True).as_long()
+            sg = lambda x: (mv(x) + (1 << 63)) % (1 << 64) - (1 << 63)
+            tp = [mv(x[1]) for x in e.st.events if x[0] == 'tpop']
+            evs = [x[0] for x in e.st.events if x[0] in ('push', 'pop', 'spush', 'spop', 'spopn', 'tpop')]
+            res = find_result(e.value, 'Result')
+            msg = ('%s has a path (%s) on which env_guards changes by %+d but the frames and scopes it accounts for change by %+d: '
+                   'open scopes at entry %d, frames popped with %r open scopes, open scopes at exit %d; events %r' % (
+                       label, 'returning Err' if (res is not None and res.discr == 1) else 'to a return', sg(g),
+                       sg(rhs), mv(n0), tp, mv(nf), evs))
+            report_bad(rep, 'C14/%s/ledger' % meth, meth, msg, {'function': meth, 'arm': arm, 'delta_env_guards': sg(g), 'scopes_at_entry': mv(n0),
+                                                                  'frames_popped_open_scopes': tp, 'scopes_at_exit': mv(nf), 'events': evs})
+        if terminal is not None and terminal(e):
+            goal2 = z3.And(nf == 0, tf == 0)
+            r2, m2 = ex.check_sat_pc(e.st.pc, [z3.Not(goal2)])
+            what2 = '%s path %d: when the VM is finished nothing of it is left (trampoline stack and saved_env_stack empty)' % (label, k)
+            rep.obligation(what2, r2, 'vector lengths symbolic', 0.0)
+            if r2 == 'unsat':
+                cross.append((what2, list(e.st.pc) + [z3.Not(goal2)], 'unsat'))
+            elif not rep.seen('C14/%s/finished-with-open-scopes' % meth):
+                report_bad(rep, 'C14/%s/finished-with-open-scopes' % meth, meth,
+                           '%s ends the VM (error or completion) with %d block scopes still open and %d frames on the trampoline stack: their env guards are never popped' % (
+                               label, m2.eval(nf, model_completion=True).as_long(), m2.eval(tf, model_completion=True).as_long()),
+                           {'function': meth, 'open_scopes': m2.eval(nf, model_completion=True).as_long()})
+    if skipped:
+        rep.extra.setdefault('paths_beyond_unwinding', {})[label] = skipped
+    if n_ok == 0:
+        rep.inconc('%s: no path reaches a return (vacuity)' % label)
+    rep.vacuity.append('%s: %d return paths' % (label, n_ok))
+    rep.sample({'kernel': '%s ledger invariant' % label, 'return_paths': n_ok})
+    rep.absorb(ex)
+    return sites
+
+
+def balance_kernel(rep, cross, fn, label):
+    """pushes == pops on every path to a return (users of the primitives outside the VM's frame bookkeeping)"""
     ex = common.executor(unwind=4)
     ex.auto_havoc = True
 
     def key(s):
-        # merge states that are at the same control location with the same event counters and loop counters
-        ev = tuple((x[0] if x[0] != 'call' else None) for x in s.events if x[0] in ('push', 'pop', 'abs_push', 'abs_pop'))
+        ev = tuple(x[0] for x in s.events if x[0] in ('push', 'pop', 'spush', 'spop', 'abs_push', 'abs_pop'))
         loc = tuple((f.fn.name, f.block, f.ret_block, id(f.on_return), tuple(sorted(f.visits.items()))) for f in s.frames)
         return (loc, ev, ex.control_digest(s))
     ex.subsume_key = key
-
-    def ev(kind):
-        def h(e, s, c):
-            s.event(kind)
-            return e.ret(s, c, UNIT)
-        return h
-    ex.overrides.append((re.compile(r'^Interpreter::push_env_guard$'), ev('push')))
-    ex.overrides.append((re.compile(r'^Interpreter::pop_env_guard$'), ev('pop')))
-    fn = common.fn_name(ex, ty, meth)
+    for prim, kind in PRIMS.items():
+        ex.overrides.append((re.compile('^%s$' % re.escape(prim)), Ledger._ev(kind)))
     f = ex.mir.get(fn)
     st = State()
     args = [ex.fresh(st, t, '$a%d' % i) for i, (a, t) in enumerate(f.args)]
@@ -65,54 +333,53 @@ def balance_kernel(rep, cross, ty, meth, expect, label):
             skipped[e.detail[:70]] = skipped.get(e.detail[:70], 0) + 1
             continue
         if e.status != 'return':
-            rep.inconc('%s::%s: %s %s' % (ty, meth, e.status, e.detail[:160]))
+            rep.inconc('%s: %s %s' % (label, e.status, e.detail[:160]))
             continue
         n_ok += 1
-        pushes = sum(1 for x in e.st.events if x[0] == 'push')
-        pops = sum(1 for x in e.st.events if x[0] == 'pop')
-        tidx = ex.src.structs['BytecodeVM'].index('trampoline_stack')
-
-        def is_tramp(tok):
-            while isinstance(tok, tuple):
-                tok = tok[0]
-            return str(tok).endswith('.%d:vec' % tidx)
-        fpush = sum(1 for x in e.st.events if x[0] == 'abs_push' and is_tramp(x[1]))
-        fpop = sum(1 for x in e.st.events if x[0] == 'abs_pop' and is_tramp(x[1]))
-        ok = expect(pushes, pops, fpush, fpop, e)
-        if not ok:
-            bad.append((pushes, pops, fpush, fpop, e))
-    what = '%s::%s: %s' % (ty, meth, label)
+        pu = sum(1 for x in e.st.events if x[0] in ('push', 'spush'))
+        po = sum(1 for x in e.st.events if x[0] in ('pop', 'spop'))
+        if pu != po:
+            bad.append((pu, po, e))
+    what = '%s: env-guard pushes and pops are balanced on every path' % label
     rep.obligation(what, 'sat' if bad else 'unsat', 'all %d paths to a return (loops unrolled 4 times)' % n_ok, 0.0)
     if bad:
-        p_, q_, fp, fq, e = bad[0]
-        r, m = ex.check_sat_pc(e.st.pc, [])
+        pu, po, e = bad[0]
         res = 'Ok' if (isinstance(e.value, EnumV) and e.value.discr == 0) else ('Err' if isinstance(e.value, EnumV) else 'return')
-        key = 'C14/%s/unpaired-env-guard' % meth
-        outs = driver.replay([{'cmd': 'gc_repeat', 'src': s, 'times': 6} for s, _ in PROGRAMS])
-        rep.validated += len(outs)
-        growing = [(s, o['live']) for (s, k), o in zip(PROGRAMS, outs) if o['live'][-1] > o['live'][1] and k != KF_ABANDONED]
-        p = rep.write_replay('balance-%s' % meth, {'function': meth, 'pushes': p_, 'pops': q_, 'frame_pushes': fp, 'frame_pops': fq, 'returns': res,
-                                                    'programs_with_growing_heap': growing})
-        rep.violation(key, '%s has a path (returning %s) with %d push_env_guard and %d pop_env_guard (frames pushed %d, popped %d)%s' % (
-            meth, res, p_, q_, fp, fq, '; heap grows on repetition: %r' % growing[:1] if growing else ''), p)
+        report_bad(rep, 'C14/%s/unpaired-env-guard' % label, label,
+                   '%s has a path (returning %s) with %d env-guard pushes and %d pops' % (label, res, pu, po),
+                   {'function': label, 'pushes': pu, 'pops': po, 'returns': res})
     if skipped:
-        rep.extra.setdefault('paths_beyond_unwinding', {})['%s::%s' % (ty, meth)] = skipped
+        rep.extra.setdefault('paths_beyond_unwinding', {})[label] = skipped
     if n_ok == 0:
-        rep.inconc('%s::%s: no path reaches a return (vacuity)' % (ty, meth))
-    rep.vacuity.append('%s::%s: %d return paths' % (ty, meth, n_ok))
-    rep.sample({'kernel': '%s::%s env-guard balance' % (ty, meth), 'return_paths': n_ok})
+        rep.inconc('%s: no path reaches a return (vacuity)' % label)
+    rep.vacuity.append('%s: %d return paths' % (label, n_ok))
+    rep.sample({'kernel': '%s env-guard balance' % label, 'return_paths': n_ok})
     rep.absorb(ex)
 
 
+VM_KERNELS = {
+    # method -> functions executed for real inside it
+    'restore_from_trampoline_frame': ('unwind_frame_scopes',),
+    'handle_error_with_trampoline_unwind': ('unwind_frame_scopes',),
+    'push_trampoline_frame_and_call_bytecode': (),
+    'push_trampoline_frame_and_call_bytecode_construct': (),
+    'find_exception_handler': (),
+    'unwind_frame_scopes': (),
+}
+
+
 def run(rep):
-    rep.bounds = dict(paths='all paths to a return; loops over argument lists unrolled 4 times (paths needing more are listed, not judged)')
+    rep.bounds = dict(paths='all paths to a return; loops unrolled 3 times in the VM kernels (4 in the balance kernels); paths needing more are listed, not judged',
+                      vectors='lengths symbolic up to 2^40')
     rep.assumptions = [
-        'assume-guarantee: every callee other than push_env_guard/pop_env_guard leaves the env-guard stack as it found it (checked for the callees that are kernels here, assumed for the rest)',
-        'callees return arbitrary values and may rewrite anything behind &mut arguments',
-        'states reaching the same control location with the same loop counters and the same push/pop history and the same decided Result/ControlFlow cases (what steers early returns) are merged; symbolic data differences after the merge are ignored (every callee result is arbitrary anyway)',
+        'assume-guarantee: a callee that does not call one of the four primitives directly leaves env_guards, vm.saved_env_stack and vm.trampoline_stack as it found them '
+        '(the direct users are all kernels here; deeper effects go through them)',
+        'callees return arbitrary values and may rewrite anything else behind &mut arguments',
+        'pop on an empty env_guards is not modelled (the invariant gives G >= T + |saved_env_stack|)',
+        'balance kernels: states at the same control location with the same loop counters, the same push/pop history and the same decided Result/ControlFlow cases are merged',
     ]
-    rep.outside = ['cross-opcode pairing inside the VM beyond the four trampoline functions', 'root_guard misuse', 'the collector itself (C13)',
-                   'push_scope/pop_scope pairing across yields (see known finding)']
+    rep.outside = ['generators: the saved generator state does not carry saved_env_stack (see known finding)', 'root_guard misuse', 'the collector itself (C13)',
+                   'break / continue out of a block scope inside one activation (scopes stay open until the frame is left; see DESIGN.md)']
     cross = []
     # concrete companion: repeated runs keep the live-object count constant
     outs = driver.replay([{'cmd': 'gc_repeat', 'src': s, 'times': 6} for s, _ in PROGRAMS])
@@ -122,14 +389,80 @@ def run(rep):
         if live[-1] > live[1]:
             p = rep.write_replay('growth', {'cmd': 'gc_repeat', 'src': s, 'times': 6, 'live_objects_after_collect': live})
             rep.violation(key, 'live objects after collect() grow when %r is run repeatedly on one interpreter: %r' % (s, live), p)
-    balance_kernel(rep, cross, 'Interpreter', 'resume_bytecode_generator', lambda pu, po, fp, fq, e: pu == po, 'push_env_guard and pop_env_guard are balanced on every path')
-    balance_kernel(rep, cross, 'Interpreter', 'call_bytecode_function_with_new_target', lambda pu, po, fp, fq, e: pu == po, 'push_env_guard and pop_env_guard are balanced on every path')
-    for m in ('push_trampoline_frame_and_call_bytecode', 'push_trampoline_frame_and_call_bytecode_construct'):
-        balance_kernel(rep, cross, 'BytecodeVM', m, lambda pu, po, fp, fq, e: po == 0 and pu == fp and pu <= 1, 'an env guard is pushed iff a trampoline frame is pushed')
-    balance_kernel(rep, cross, 'BytecodeVM', 'restore_from_trampoline_frame', lambda pu, po, fp, fq, e: pu == 0 and po == 1, 'exactly one env guard is popped per restored frame')
-    balance_kernel(rep, cross, 'BytecodeVM', 'handle_error_with_trampoline_unwind', lambda pu, po, fp, fq, e: pu == 0 and po == fq, 'one env guard is popped per trampoline frame popped')
+    # every direct user of the primitives, from the current MIR
+    ex0 = common.executor(unwind=2)
+    users = direct_users(ex0)
+    names = {}
+    for (ty, trait, meth), fns in ex0._fnkeys.items():
+        for n in fns:
+            names[n] = (ty, meth)
+    rep.extra['direct_users_of_env_guard_primitives'] = {short(n): c for n, c in users.items()}
+    seen_kernels = set()
+    exec_sites = 0
+    for n, c in sorted(users.items()):
+        ty, meth = names.get(n, (None, short(n)))
+        if ty == 'Interpreter' and meth in ('push_env_guard', 'pop_env_guard', 'push_scope', 'pop_scope'):
+            continue
+        if ty == 'BytecodeVM' and meth in VM_KERNELS:
+            invariant_kernel(rep, cross, meth, VM_KERNELS[meth], summarise=('find_exception_handler',) if meth == 'handle_error_with_trampoline_unwind' else (),
+                             terminal=(lambda e: (lambda r: r is not None and r.discr == 1)(find_result(e.value, 'Result'))) if meth == 'handle_error_with_trampoline_unwind' else None)
+            seen_kernels.add(meth)
+        elif ty == 'BytecodeVM' and meth == 'execute_op':
+            s1 = invariant_kernel(rep, cross, 'execute_op', (), arm='PushScope')
+            s2 = invariant_kernel(rep, cross, 'execute_op', (), arm='PopScope')
+            exec_sites = s1 + s2
+            if exec_sites != c:
+                rep.inconc('execute_op calls the env-guard primitives at %d sites but the PushScope/PopScope arms account for %d: another arm touches env_guards and has no contract here' % (c, exec_sites))
+        else:
+            balance_kernel(rep, cross, n, ('%s::%s' % (ty, meth)) if ty else meth)
+    for meth in ('restore_from_trampoline_frame', 'handle_error_with_trampoline_unwind', 'push_trampoline_frame_and_call_bytecode'):
+        if meth not in seen_kernels:
+            rep.inconc('%s no longer calls an env-guard primitive directly: the frame bookkeeping moved, contracts out of date' % meth)
+    # a finished VM leaves nothing behind: step() reporting Terminal(Complete)
+    invariant_step_complete(rep, cross)
     rep.cross = driver.cross_check(cross, 300, 'ALL', rep.tier, rep.seed)
     rep.extra['cross_checked_obligations'] = len(cross)
+
+
+def invariant_step_complete(rep, cross):
+    L = Ledger(rep, ('unwind_frame_scopes', 'restore_from_trampoline_frame'), unwind=3)
+    ex = L.ex
+    fn = common.fn_name(ex, 'BytecodeVM', 'step')
+    f = ex.mir.get(fn)
+    st = State()
+    a_vm, n0, t0 = L.fresh_vm(st)
+    args = [Ref(a_vm)] + [ex.fresh(st, t, '$a%d' % i) for i, (a, t) in enumerate(f.args[1:], 1)]
+    ex.call_function(st, fn, args)
+    ends = ex.run(st, max_paths=20000)
+    vs = ex.enum_variants('VmResult')
+    n_c = 0
+    for k, e in enumerate(ends):
+        if e.status in ('bound', 'panic'):
+            continue
+        if e.status != 'return':
+            rep.inconc('step: %s %s' % (e.status, e.detail[:160]))
+            continue
+        r = find_result(e.value, 'VmResult', 0, e.st)
+        if r is None or not isinstance(r.discr, int) or vs[r.discr] != 'Complete':
+            continue
+        n_c += 1
+        fin = ex.load(e.st, a_vm, (('f', L.sidx, L.s_ty),))
+        tfin = ex.load(e.st, a_vm, (('f', L.tidx, L.t_ty),))
+        goal = z3.And(ex.vec_len(fin).e == 0, ex.vec_len(tfin).e == 0)
+        rr, m = ex.check_sat_pc(e.st.pc, [z3.Not(goal)])
+        what = 'step path %d: Terminal(Complete) leaves no open block scope and no trampoline frame behind' % k
+        rep.obligation(what, rr, 'vector lengths symbolic; execute_op abstracted (arbitrary result, bookkeeping vectors arbitrary after it)', 0.0)
+        if rr == 'unsat':
+            cross.append((what, list(e.st.pc) + [z3.Not(goal)], 'unsat'))
+        elif not rep.seen('C14/step/finished-with-open-scopes'):
+            report_bad(rep, 'C14/step/finished-with-open-scopes', 'step',
+                       'step() reports Terminal(Complete) with %d block scopes still open: their env guards are never popped' % m.eval(ex.vec_len(fin).e, model_completion=True).as_long(),
+                       {'function': 'step', 'open_scopes': m.eval(ex.vec_len(fin).e, model_completion=True).as_long()})
+    if n_c == 0:
+        rep.inconc('step: no path reports Terminal(Complete) (vacuity)')
+    rep.vacuity.append('step: %d paths reporting Terminal(Complete)' % n_c)
+    rep.sample({'kernel': 'step Terminal(Complete) leaves nothing behind', 'paths': n_c})
+    rep.absorb(ex)
 
 
 def replay_file(path):
